@@ -21,7 +21,7 @@ ENGINE = "netsim-stream"
 HAS_VIRTUAL_TIME = True
 
 TIERS = {
-    "quick": {"runs": 40000, "batch": 500},
+    "quick": {"runs": 150000, "batch": 1500},
     "thorough": {"runs": 3000000, "batch": 5000},
 }
 
@@ -154,8 +154,10 @@ CODECS = ["version", "ping", "getheaders", "inv", "addr"]
 
 def plan(seed, tier="quick", index=0):
     rng = sub_rng(seed, "plan")
-    stratum = rng.choice(["clean", "clean", "bitflip", "bitflip", "truncate", "truncate", "foreign-magic", "codec", "codec", "codec"])
+    stratum = rng.choice(["clean", "clean", "bitflip", "bitflip", "truncate", "truncate", "foreign-magic", "codec", "codec", "codec", "concurrent"])
     network = rng.choice(sorted(MAGICS))
+    if stratum == "concurrent":
+        return _plan_concurrent(seed, rng, network)
     nframes = rng.choice([1, 1, 2, 3])
     fr = []
     for _ in range(nframes):
@@ -183,6 +185,10 @@ def plan(seed, tier="quick", index=0):
         "delay_mode": rng.choice(["none", "none", "jitter", "slow"]),
         "fault": None,
     }
+    if rng.random() < 0.25:
+        # state left over from earlier traffic on another network in the same process
+        other = rng.choice([m for m in sorted(MAGICS) if m != network])
+        sc["prelude"] = {"network": other, "cmds": [f["cmd"] for f in fr if f["cmd"] in COMMAND_TABLE][:2] or ["ping"], "size": rng.choice([0, 8, 40])}
     if stratum == "bitflip":
         sc["fault"] = {"kind": "bitflip", "frame": rng.randrange(nframes), "field": rng.choice(["magic", "command", "length", "checksum", "payload", "any"]), "pick": rng.getrandbits(32)}
     elif stratum == "truncate":
@@ -191,6 +197,135 @@ def plan(seed, tier="quick", index=0):
         other = rng.choice([m for m in sorted(MAGICS) if m != network] + ["random"])
         sc["fault"] = {"kind": "foreign-magic", "frame": rng.randrange(nframes), "magic": MAGICS[other].hex() if other != "random" else rng.getrandbits(32).to_bytes(4, "big").hex()}
     return sc
+
+
+def _plan_concurrent(seed, rng, network):
+    """2-3 receivers, each on its own connection, inside recv_msg at the same time."""
+    n = rng.choice([2, 2, 3])
+    conns = []
+    for c in range(n):
+        frs = []
+        for _ in range(rng.choice([1, 2, 3])):
+            frs.append({"cmd": rng.choice(COMMAND_TABLE), "payload_seed": rng.getrandbits(32), "size": rng.choice([0, 1, 8, 24, 36, 80, 300]), "built": "ref"})
+        conns.append({"frames": frs, "cut_mode": rng.choice(["header", "header", "random", "boundary", "bytewise"]), "cut_seed": rng.getrandbits(32)})
+    strategy = rng.choice([["random", 0.05, 0.05], ["random", 0.2, 0.2], ["random", 0.5, 0.5], ["hold", 2, 200, 60], ["hold", 3, 400, 100], ["pct", 2, 300], ["rr", rng.choice([1, 3, 10])]])
+    return {"property": PROPERTY, "seed": seed, "stratum": "concurrent", "network": network, "epoch": 1600000000, "conns": conns, "strategy": strategy, "short_read_rate": rng.choice([0.0, 0.2]), "frames": [], "fault": None, "cut_mode": "-"}
+
+
+def _execute_concurrent(sc, tape, keep_events):
+    import threading
+
+    p2p = p2p_module(fresh=True)
+    res = RunResult()
+    res.stratum = "concurrent"
+    log = EventLog(keep=keep_events)
+    faults, probes = res.faults, res.probes
+    magic = MAGICS[sc["network"]]
+    sched = S.Sched(rng=sub_rng(sc["seed"], "sched"), log=log, strategy=tuple(sc["strategy"]), granularity="line", tape=tape, step_cap=400000, trace_files=(p2p.__file__,), all_hot=True)
+    sched.register_main()
+    clock = SimClock(sched, sc["epoch"])
+    peers = []
+    streams = []
+    for ci, cd in enumerate(sc["conns"]):
+        stream = b"".join(frames.frame(magic, f["cmd"], _payload_bytes(f["payload_seed"], f["size"])) for f in cd["frames"])
+        bounds = []
+        pos = 0
+        for f in cd["frames"]:
+            pos += 24 + f["size"]
+            bounds.append(pos)
+        crng = sub_rng(cd["cut_seed"], "cuts")
+        sizes = _cuts(crng, len(stream), bounds, cd["cut_mode"] if len(stream) <= 400 or cd["cut_mode"] != "bytewise" else "random")
+        segs = []
+        t = 0.0
+        pos = 0
+        for sz in sizes:
+            segs.append((t, stream[pos : pos + sz]))
+            pos += sz
+            t += crng.choice([0.0, 0.0, 0.001])
+        peers.append(Peer(ci, f"10.0.1.{ci + 1}", 18500 + ci, segs, close_after=True))
+        streams.append(stream)
+    net = Net(sched, peers, faults, sub_rng(sc["seed"], "net"), short_read_rate=sc["short_read_rate"])
+    results = {}
+    viols = []
+    aborted = None
+    with P2PEnv(sched, net, clock, sc["network"]):
+        socks = []
+        for pr in peers:
+            so = net.new_socket()
+            so.connect((pr.host, pr.port))
+            socks.append(so)
+
+        def make(ci):
+            def body():
+                out = []
+                for _ in sc["conns"][ci]["frames"]:
+                    try:
+                        out.append(("msg", p2p.recv_msg(socks[ci])))
+                    except SimHang as e:
+                        out.append(("hang", str(e)))
+                        break
+                    except Exception as e:  # noqa
+                        out.append(("error", f"{type(e).__name__}: {e}"[:160]))
+                        break
+                results[ci] = out
+
+            return body
+
+        threads = []
+        try:
+            for ci in range(len(peers)):
+                t = threading.Thread(target=make(ci))
+                threads.append(t)
+                t.start()
+            sched.block(sched.others_done, None, what="driver-join")
+        except S.SimAbort:
+            aborted = sched.abort_reason or "abort"
+        finally:
+            if sched.aborting:
+                sched.abort_all_from_driver()
+    for t in threads:
+        S._orig_thread_join(t, 30.0)
+        if t.is_alive():
+            raise HarnessError("simulated receiver thread did not terminate")
+    if aborted:
+        raise HarnessError(f"run aborted: {aborted}")
+    for ci, stream in enumerate(streams):
+        ref = [r for r in frames.parse_stream(stream, magic) if r[0] == "msg"]
+        got = results.get(ci, [])
+        for k, r in enumerate(ref):
+            key = f"conn={ci} call={k}"
+            if k >= len(got):
+                viols.append(Violation("valid-message-rejected", key, "receiver stopped early (concurrent receivers)"))
+                break
+            kind, val = got[k]
+            log.add(sched.now, ci, "recv_msg", (k, kind))
+            if kind == "hang":
+                viols.append(Violation("eof-hang", key, val))
+                break
+            if kind == "error":
+                viols.append(Violation("valid-message-rejected", key, f"{val} (concurrent receivers on separate connections)"))
+                break
+            ok = isinstance(val, tuple) and len(val) == 3 and bytes(val[0]) == r[1] and bytes(val[1]).ljust(12, b"\x00") == r[2] and bytes(val[2]) == r[3]
+            if not ok:
+                viols.append(Violation("message-mismatch", key, f"got {_short(val)} want cmd={r[2]!r} len={len(r[3])} (concurrent receivers on separate connections)"))
+                break
+            probes.hit("message-ok-concurrent")
+    seen = set()
+    for v in viols:
+        kk = (v.clause, v.key)
+        if kk not in seen:
+            seen.add(kk)
+            res.violations.append(v.to_json())
+    faults.hit("preemptive-switch", sched.switches)
+    res.nontrivial = sched.switches >= 2
+    res.sim_time = sched.now
+    res.steps = sched.steps
+    res.tape = sched.tape_out
+    res.digest = log.digest()
+    res.stats["trans"] = set()
+    res.stats["events"] = log.events if keep_events else None
+    res.features = {"stratum": "concurrent"}
+    return res
 
 
 # --------------------------------------------------------------------------- building
@@ -259,7 +394,9 @@ def _match(exp, got):
 
 # --------------------------------------------------------------------------- execute
 def execute(scenario, tape=None, keep_events=False):
-    p2p = p2p_module()
+    if scenario["stratum"] == "concurrent":
+        return _execute_concurrent(scenario, tape, keep_events)
+    p2p = p2p_module(fresh=True)
     seed = scenario["seed"]
     res = RunResult()
     res.stratum = scenario["stratum"]
@@ -272,6 +409,36 @@ def execute(scenario, tape=None, keep_events=False):
     net = Net(sched, [], faults, sub_rng(seed, "net"), short_read_rate=scenario["short_read_rate"])
     viols = []
     with P2PEnv(sched, net, clock, scenario["network"]):
+        # -- earlier traffic on another network in the same process (state left over)
+        pre = scenario.get("prelude")
+        if pre:
+            pm = MAGICS[pre["network"]]
+            p2p.set_magic_start_bytes(pre["network"])
+            for ci, cmd in enumerate(pre["cmds"]):
+                pl = _payload_bytes(seed ^ ci, pre["size"])
+                want = frames.frame(pm, cmd, pl)
+                try:
+                    fb = p2p.msg_ser(pm, cmd.encode(), pl)
+                except Exception as e:
+                    fb = None
+                    viols.append(Violation("serialise-refused", f"prelude cmd={cmd}", f"{type(e).__name__}: {e}"))
+                if fb is not None and fb != want:
+                    viols.append(Violation("serialise-mismatch", f"prelude cmd={cmd}", f"lib={fb[:30].hex()} ref={want[:30].hex()}"))
+                ppeer = Peer(100 + ci, "10.0.9.1", 19000 + ci, [(0.0, want)], close_after=True)
+                net.peers[(ppeer.host, ppeer.port)] = ppeer
+                net.by_port[ppeer.port] = ppeer
+                ps = net.new_socket()
+                ps.connect((ppeer.host, ppeer.port))
+                try:
+                    got = p2p.recv_msg(ps)
+                    if not (bytes(got[0]) == pm and bytes(got[2]) == pl):
+                        viols.append(Violation("message-mismatch", f"prelude cmd={cmd}", _short(got)))
+                except SimHang as e:
+                    viols.append(Violation("eof-hang", f"prelude cmd={cmd}", str(e)))
+                except Exception as e:
+                    viols.append(Violation("valid-message-rejected", f"prelude cmd={cmd}", f"{type(e).__name__}: {e}"[:160]))
+            p2p.set_magic_start_bytes(scenario["network"])
+            faults.hit("network-switch-in-process")
         # -- the peer builds its frames (library builders read the simulated clock)
         built = []
         stream = bytearray()
@@ -495,6 +662,12 @@ def selfcheck():
 def shrink_candidates(scenario, tape):
     import copy
 
+    if scenario["stratum"] == "concurrent":
+        return
+    if scenario.get("prelude"):
+        sc = copy.deepcopy(scenario)
+        del sc["prelude"]
+        yield sc, tape
     if len(scenario["frames"]) > 1:
         for i in range(len(scenario["frames"]) - 1, -1, -1):
             f = scenario["fault"]
@@ -532,6 +705,8 @@ def shrink_candidates(scenario, tape):
 
 
 def sample(scenario):
+    if scenario["stratum"] == "concurrent":
+        return {"stratum": "concurrent", "strategy": scenario["strategy"], "conns": [{"frames": [(f["cmd"], f["size"]) for f in c["frames"]], "cut_mode": c["cut_mode"]} for c in scenario["conns"]]}
     return {
         "stratum": scenario["stratum"],
         "network": scenario["network"],
